@@ -186,7 +186,7 @@ package workers
 //@   ensures [wf] wfState(result) && !result.t.failed && !result.t.tearingDown
 //@
 //@ func (*PoolManager).makeIterationStatePool
-//@   props C04 C03 C07 C01 C14 C06 C17
+//@   props C04 C03 C07 C01 C14 C06 C17 C20 C16 C08
 //@   modifies nothing
 //@   requires numWorkers >= 0 && m.activeScenario != nil && m.activeScenario.scenario != nil
 //@   loop 0 invariant 0 <= i && i < numWorkers && len(statePool) == numWorkers && fresh(statePool)
@@ -348,7 +348,7 @@ package workers
 //@
 //@ ghost var G2cancelled bool
 //@ func (*TriggerPool).Trigger
-//@   props C09 C02
+//@   props C09 C02 C05
 //@   requires wfTriggerPool(p) && ctx != nil
 //@   ghost after call invoke:Err : G2cancelled = (ret0 != nil)
 //@   ghost before call (*TriggerPool).sendJobsForExecution : assert [unchanged] arg1 == numJobs && arg0 == p
